@@ -138,7 +138,9 @@ func FileOp(h fileLike, t []string) string {
 		n, err := h.ReadAt(b, atoi64(t[3]))
 		return fmt.Sprintf("bytes=%s err:%s", corr.Hex(b[:n]), FileErrClass(err))
 	case "write":
-		n, err := h.Write(corr.UnHex(t[2]))
+		b := corr.UnHex(t[2])
+		n, err := h.Write(b)
+		scribble(b)
 		return fmt.Sprintf("n=%d err:%s", n, FileErrClass(err))
 	case "writestring":
 		n, err := h.WriteString(string(corr.UnHex(t[2])))
@@ -147,7 +149,9 @@ func FileOp(h fileLike, t []string) string {
 		n, err := io.Copy(h, plainReader{bytes.NewReader(corr.UnHex(t[2]))})
 		return fmt.Sprintf("n=%d err:%s", n, FileErrClass(err))
 	case "writeat":
-		n, err := h.WriteAt(corr.UnHex(t[2]), atoi64(t[3]))
+		b := corr.UnHex(t[2])
+		n, err := h.WriteAt(b, atoi64(t[3]))
+		scribble(b)
 		return fmt.Sprintf("n=%d err:%s", n, FileErrClass(err))
 	case "trunc":
 		err := h.Truncate(atoi64(t[2]))
